@@ -369,6 +369,53 @@ fn entry(name: &str, data: &[u8], aux: &[u8]) -> Option<bool> {
       }
       Err(_) => false,
     },
+    // values BUILT through the setters (which validate on their own, not through the parser), then every accessor,
+    // conversion and join on them
+    "didset" => match CoreDID::parse(&s) {
+      Ok(mut d) => {
+        let v = String::from_utf8_lossy(aux).to_string();
+        st("set_method_id");
+        let a = d.set_method_id(&v).is_ok();
+        if a {
+          walk_did(&d);
+          st("url-of-set-did");
+          walk_url(&d.to_url());
+          walk_url(&DIDUrl::from(d.clone()));
+        }
+        let mut d2 = CoreDID::parse(&s).unwrap();
+        st("set_method_name");
+        let b = d2.set_method_name(&v).is_ok();
+        if b {
+          walk_did(&d2);
+          walk_url(&d2.to_url());
+        }
+        a || b
+      }
+      Err(_) => false,
+    },
+    "urlset" => match DIDUrl::parse(&s) {
+      Ok(u) => {
+        let v = String::from_utf8_lossy(aux).to_string();
+        let mut any = false;
+        for which in 0..3 {
+          let mut w = u.clone();
+          st("set_component");
+          let r = match which {
+            0 => w.set_path(Some(&v)),
+            1 => w.set_query(Some(&v)),
+            _ => w.set_fragment(Some(&v)),
+          };
+          if r.is_ok() {
+            any = true;
+            walk_url(&w);
+            st("did-of-set-url");
+            walk_did(w.did());
+          }
+        }
+        any
+      }
+      Err(_) => false,
+    },
     "join" => {
       let seg = String::from_utf8_lossy(aux).to_string();
       match DIDUrl::parse(&s) {
@@ -946,7 +993,7 @@ fn emit2(out: &mut impl Write, name: &str, data: &[u8], aux: &[u8]) {
     let low = String::from_utf8_lossy(&d).to_lowercase();
     writeln!(out, "C05 {} {} {}", name, hex(&d), hex(low.as_bytes())).unwrap();
   } else {
-    writeln!(out, "C05 {} {} {}", name, hex(&d), hex(&canon(if name == "join" { "join" } else { "compact" }, aux))).unwrap();
+    writeln!(out, "C05 {} {} {}", name, hex(&d), hex(&canon(if name == "join" || name == "didset" || name == "urlset" { "join" } else { "compact" }, aux))).unwrap();
   }
 }
 
@@ -1229,6 +1276,9 @@ pub fn gen(thorough: bool, seed: u64, out: &mut impl Write) {
       emit2(out, "iota", format!("did:iota:{}", s).as_bytes(), low.as_bytes());
       emit(out, "didjwk", format!("did:jwk:{}", s).as_bytes());
       emit2(out, "join", b"did:m:a/p?q#f", s.as_bytes());
+      emit2(out, "didset", b"did:m:a", s.as_bytes());
+      emit2(out, "urlset", b"did:m:a/p?q#f", s.as_bytes());
+      emit2(out, "urlset", b"did:m:a", format!("/{}", s).as_bytes());
       emit(out, "integrity", format!("sha256-AAAA{}", s).as_bytes());
       emit(out, "integrity", s.as_bytes());
       emit(out, "ts", format!("{}-01-01T00:00:00Z", s).as_bytes());
@@ -1398,7 +1448,11 @@ pub fn gen(thorough: bool, seed: u64, out: &mut impl Write) {
       0 => emit(out, "did", s.as_bytes()),
       1 => emit(out, "url", s.as_bytes()),
       2 => emit2(out, "iota", s.as_bytes(), s.to_lowercase().as_bytes()),
-      _ => emit2(out, "join", b"did:m:a/p?q#f", s.as_bytes()),
+      _ => {
+        emit2(out, "join", b"did:m:a/p?q#f", s.as_bytes());
+        emit2(out, "didset", b"did:m:a", s.as_bytes());
+        emit2(out, "urlset", b"did:m:a/p", s.as_bytes());
+      }
     }
   }
 }
